@@ -19,6 +19,9 @@ from ..common import NCPU
 
 BE = ["numpy", "jax", "cupy"]
 TA = ["core", "einsum"]
+# selections by backend INSTANCE (a second, unregistered instance of the same class), used by the random / free programs
+BE_ALT = BE + ["numpy_alt", "jax_alt"]
+TA_ALT = TA + ["einsum_alt"]
 # unselectable names: unknown ones, a known-but-not-installed one, and the names of the OTHER manager
 BAD = {"be": ["nope", "pytorch", "einsum", "core"], "ta": ["nope", "numpy", "jax"]}
 
@@ -114,7 +117,7 @@ def random_program(rng, threads, length, maxdepth=3):
     for _ in range(length):
         t = rng.choice(threads)
         m = rng.choice(["be", "be", "ta"])
-        names = BE if m == "be" else TA
+        names = BE_ALT if m == "be" else TA_ALT
         r = rng.random()
         if r < 0.12:
             ops.append({"ev": "Set", "t": t, "m": m, "name": rng.choice(BAD[m]), "loc": rng.random() < 0.5})
